@@ -115,9 +115,13 @@ func (w *World) directive() byte {
 	}
 	return 'd'
 }
+// depPanic is what a dependency raises under directive 'p' (a dependency running out of gas, or panicking on its own state):
+// baseapp recovers it, the transaction fails and its branch is dropped - at transaction level the same as an error
+type depPanic struct{}
+
 func decide(d byte, rule bool) bool {
 	switch d {
-	case 'f':
+	case 'f', 'p':
 		return false
 	case 's':
 		return true
@@ -142,8 +146,12 @@ func (b bank) SendCoinsFromAccountToModule(ctx context.Context, senderAddr sdk.A
 		denom = "#" + strings.Join(ds, ",")
 	}
 	rule := len(amt) == 1 && a.Sign() > 0 && a.Cmp(w.getBal(ctx, senderAddr, denom)) <= 0
-	ok := decide(w.directive(), rule)
+	d := w.directive()
+	ok := decide(d, rule)
 	w.calls = append(w.calls, fmt.Sprintf("Transfer from=%x to=%x denom=%x amt=%s ok=%s", []byte(senderAddr), recipientModule, denom, a.String(), b01(ok)))
+	if d == 'p' {
+		panic(depPanic{})
+	}
 	if !ok {
 		return fmt.Errorf("ledger: transfer refused")
 	}
@@ -162,8 +170,12 @@ func (f fiat) Burn(ctx sdk.Context, msg *ftf.MsgBurn) (*ftf.MsgBurnResponse, err
 	}
 	addr, aerr := sdk.AccAddressFromBech32(msg.From)
 	rule := msg.Amount.Denom == w.denom && a.Sign() > 0 && aerr == nil && a.Cmp(w.getBal(ctx, addr, msg.Amount.Denom)) <= 0
-	ok := decide(w.directive(), rule)
+	d := w.directive()
+	ok := decide(d, rule)
 	w.calls = append(w.calls, fmt.Sprintf("Burn from=%x denom=%x amt=%s ok=%s", msg.From, msg.Amount.Denom, a.String(), b01(ok)))
+	if d == 'p' {
+		panic(depPanic{})
+	}
 	if !ok {
 		return nil, fmt.Errorf("ledger: burn refused")
 	}
@@ -180,8 +192,12 @@ func (f fiat) Mint(ctx sdk.Context, msg *ftf.MsgMint) (*ftf.MsgMintResponse, err
 	}
 	addr, aerr := sdk.AccAddressFromBech32(msg.Address)
 	rule := msg.Amount.Denom == w.denom && a.Sign() >= 0 && aerr == nil
-	ok := decide(w.directive(), rule)
+	d := w.directive()
+	ok := decide(d, rule)
 	w.calls = append(w.calls, fmt.Sprintf("Mint from=%x to=%x denom=%x amt=%s ok=%s", msg.From, msg.Address, msg.Amount.Denom, a.String(), b01(ok)))
+	if d == 'p' {
+		panic(depPanic{})
+	}
 	if !ok {
 		return nil, fmt.Errorf("ledger: mint refused")
 	}
@@ -444,6 +460,10 @@ func (w *World) runMsg(plan string, discard bool, chain bool, call func(ctx cont
 	func() {
 		defer func() {
 			if r := recover(); r != nil {
+				if _, dep := r.(depPanic); dep {
+					res.class = "err" // baseapp recovers the panic of a dependency: the transaction fails like any other
+					return
+				}
 				res.class, res.panicv = "panic", r
 			}
 		}()
@@ -471,6 +491,9 @@ func (w *World) runMsg(plan string, discard bool, chain bool, call func(ctx cont
 			defer func() {
 				if r := recover(); r != nil {
 					res2.class = "panic"
+					if _, dep := r.(depPanic); dep {
+						res2.class = "err"
+					}
 				}
 			}()
 			resp, err := call(c2)
